@@ -237,6 +237,7 @@ its history (checked by replaying both histories with either fix alone).
 | C04-10 | an asker that dies and is spawned again under its name while replies to the old incarnation are due | `Respawn` of ask-only actors in the virtual unit |
 | C07-7 | a send that is inside the reconnect back-off at the moment of Stop | three fixed shapes in front of the generated cases of the remoting unit, `unreachable` drawn more often |
 | C05-7 | a restart directive that also reaches the descendant whose failure was escalated | caught by C08 (`targets|incarnations`, `seeded/CROSS.tsv`); C05's per-actor lifecycle stays legal under this change |
+| C03-8 | a lost wake-up inside the mailbox (a window of a few instructions between the counter read and the idle store) | caught by C01, whose unit owns the mailbox's schedule (`lost-wakeup`, `seeded/CROSS.tsv`); C03's free-running units hit the window in some runs only (then the case cannot be left: `bubble-deadlock`) |
 
 ### 9.5 Known findings (genuine, not repaired) and why they are not small
 
